@@ -127,8 +127,14 @@ func (fc *fctx) call(e *ast.CallExpr, nres int) string {
 		if fc.kind(e) == kBytes && len(e.Args) == 2 {
 			return fc.bind("make_bytes " + fc.toZ(e.Args[1]))
 		}
+		if fc.kind(e) == kStrList && len(e.Args) == 3 && isConstInt(t, e.Args[1], "0") {
+			return "(@nil bytes)" // make([]string, 0, capacity): the capacity has no value effect
+		}
 		t.fail(e, "make of %s", fc.typeOf(e))
 	case "builtin.append":
+		if fc.kind(e) == kStrList && len(e.Args) == 2 && !e.Ellipsis.IsValid() {
+			return "(" + fc.expr(e.Args[0]) + " ++ [" + fc.expr(e.Args[1]) + "])"
+		}
 		if fc.kind(e) != kBytes || len(e.Args) != 2 {
 			t.fail(e, "append on %s", fc.typeOf(e))
 		}
